@@ -15,7 +15,7 @@ theorem csEntry_cases (cfg : Cfg) (c : Call) :
 /-- taking the free lock (spin: successful test-and-set; mutex: lock granted) and entering the critical section at `p` -/
 theorem inv_acquire {cfg : Cfg} {s : St} {a : Actor} {p : Pc} (h : Inv cfg s) (hfree : s.lock = false)
     (hidle : s.pc a ≠ .idle) (hncs : ¬ InCS (s.pc a))
-    (hp : (p = .csPush ∧ isPopLike (s.cur a) = false) ∨ (p = .csPop ∧ isPopLike (s.cur a) = true ∧ s.cnt a ≠ 0) ∨
+    (hp : (p = .csPush ∧ isPopLike (s.cur a) = false ∧ isRemove (s.cur a) = false) ∨ (p = .csPop ∧ isPopLike (s.cur a) = true ∧ s.cnt a ≠ 0) ∨
           (p = .wChk ∧ isPopLike (s.cur a) = true ∧ s.cnt a ≠ 0) ∨ (p = .csRm ∧ isRemove (s.cur a) = true)) :
     Inv cfg (setPc (acquire s a) a p) := by
   have hon : s.owner = none ∨ s.owner = some a := by
@@ -42,26 +42,28 @@ theorem inv_acquire {cfg : Cfg} {s : St} {a : Actor} {p : Pc} (h : Inv cfg s) (h
   case g5 => exact h.inQ
   case a1 => simp [setPc, acquire]
   case a2 => simp [setPc, acquire]
-  case a3 => rcases hp with hp | hp | hp | hp <;> simp [setPc, acquire, upd, hp.1]
+  case a3 => rcases hp with hp | hp | hp | hp <;> simp [setPc, acquire, upd, hp]
   case a4 => simpa [setPc, acquire, upd] using fun e => absurd e hlag
-  case a5 => rcases hp with hp | hp | hp | hp <;> simp [setPc, acquire, upd, hp.1]
-  case a6 => rcases hp with hp | hp | hp | hp <;> simp [setPc, acquire, upd, hp.1]
+  case a5 => rcases hp with hp | hp | hp | hp <;> simp [setPc, acquire, upd, hp]
+  case a6 => rcases hp with hp | hp | hp | hp <;> simp [setPc, acquire, upd, hp]
   case a7 => exact h.rmNZ a
-  case a8 => rcases hp with hp | hp | hp | hp <;> simp [setPc, acquire, upd, hp]
+  case a8 => rcases hp with hp | hp | hp | hp <;> simp [setPc, acquire, upd, hp, Typed, PushPc, PopPc, RmPc]
   case a9 => intro hpl _; exact h.cntGot a hpl hidle
   case a10 => rcases hp with hp | hp | hp | hp <;> simp_all [setPc, acquire, upd, Wanting]
-  case a11 => rcases hp with hp | hp | hp | hp <;> simp [setPc, acquire, upd, hp.1]
-  case a12 => rcases hp with hp | hp | hp | hp <;> simp [setPc, acquire, upd, hp.1]
-  case a13 => rcases hp with hp | hp | hp | hp <;> simp [setPc, acquire, upd, hp.1]
+  case a11 => rcases hp with hp | hp | hp | hp <;> simp [setPc, acquire, upd, hp]
+  case a12 => rcases hp with hp | hp | hp | hp <;> simp [setPc, acquire, upd, hp]
+  case a13 => rcases hp with hp | hp | hp | hp <;> simp [setPc, acquire, upd, hp]
+  case a14 => rcases hp with hp | hp | hp | hp <;> simp [setPc, acquire, upd, hp]
+  case hflag => exact Or.inl rfl
 
 /-- what `csEntry` needs from the state before the lock is taken -/
 theorem entry_ok {cfg : Cfg} {s : St} {a : Actor} (h : Inv cfg s) (hw : Wanting (s.pc a)) :
-    (csEntry cfg (s.cur a) = .csPush ∧ isPopLike (s.cur a) = false) ∨
+    (csEntry cfg (s.cur a) = .csPush ∧ isPopLike (s.cur a) = false ∧ isRemove (s.cur a) = false) ∨
     (csEntry cfg (s.cur a) = .csPop ∧ isPopLike (s.cur a) = true ∧ s.cnt a ≠ 0) ∨
     (csEntry cfg (s.cur a) = .wChk ∧ isPopLike (s.cur a) = true ∧ s.cnt a ≠ 0) ∨
     (csEntry cfg (s.cur a) = .csRm ∧ isRemove (s.cur a) = true) := by
   rcases csEntry_cases cfg (s.cur a) with e | e | e | e
-  · exact Or.inl ⟨e.1, e.2.1⟩
+  · exact Or.inl e
   · exact Or.inr (Or.inl ⟨e.1, e.2, h.cntPos a e.2 hw⟩)
   · exact Or.inr (Or.inr (Or.inl ⟨e.1, e.2, h.cntPos a e.2 hw⟩))
   · exact Or.inr (Or.inr (Or.inr e))
@@ -72,7 +74,8 @@ theorem inv_release {cfg : Cfg} {s : St} {a : Actor} {p : Pc} (h : Inv cfg s) (h
     (hp : p = .retp ∨ p = .wSleep ∨ (p = .wIdle ∧ s.cnt a ≠ 0))
     (hse : isPopLike (s.cur a) = true → (p = .retp ∨ p = .wIdle) → s.cnt a = 0 ∨ s.sawEmpty a = true)
     (hrs : isRemove (s.cur a) = true → p = .retp → s.rcOk a = true ∨ s.sawAbsent a = true)
-    (hws : isPopLike (s.cur a) = true → p = .wSleep → s.cnt a ≠ 0) :
+    (hws : isPopLike (s.cur a) = true → p = .wSleep → s.cnt a ≠ 0)
+    (hty : p = .retp ∨ isPopLike (s.cur a) = true) :
     Inv cfg (setPc (release cfg s) a p) := by
   have hidle : s.pc a ≠ .idle := by cases hpc with
     | inl e => simp [e]
@@ -99,7 +102,17 @@ theorem inv_release {cfg : Cfg} {s : St} {a : Actor} {p : Pc} (h : Inv cfg s) (h
   case a5 => rcases hp with hp | hp | hp <;> simp [setPc, release, upd, hp]
   case a6 => rcases hp with hp | hp | hp <;> simp [setPc, release, upd, hp]
   case a7 => exact h.rmNZ a
-  case a8 => rcases hp with hp | hp | hp <;> simp [setPc, release, upd, hp]
+  case a8 =>
+    rcases hp with hp | hp | hp
+    · simp [setPc, release, upd, hp, Typed, PushPc, PopPc, RmPc]
+    · have : isPopLike (s.cur a) = true := by cases hty with
+        | inl e => simp [hp] at e
+        | inr e => exact e
+      simp [setPc, release, upd, hp, Typed, PushPc, PopPc, RmPc, this]
+    · have : isPopLike (s.cur a) = true := by cases hty with
+        | inl e => simp [hp.1] at e
+        | inr e => exact e
+      simp [setPc, release, upd, hp.1, Typed, PushPc, PopPc, RmPc, this]
   case a9 => intro hpl _; exact h.cntGot a hpl hidle
   case a10 =>
     intro hpl
@@ -118,4 +131,121 @@ theorem inv_release {cfg : Cfg} {s : St} {a : Actor} {p : Pc} (h : Inv cfg s) (h
     · simpa [setPc, release, upd, hp] using hrs hr hp
     · simp [setPc, release, upd, hp]
     · simp [setPc, release, upd, hp.1]
+  case a14 => rcases hp with hp | hp | hp <;> simp [setPc, release, upd, hp]
+  case hflag => exact Or.inl rfl
+
+/-- apply the frame lemma; what stays to be shown are its side conditions about the new program counter -/
+macro "frame " h:ident a:ident : tactic => `(tactic| (
+  apply inv_frame $h (a := $a) <;> first | rfl | (intro _ _; rfl) | skip))
+
+theorem inv_loadLock {cfg : Cfg} {s s' : St} {a : Actor} {v : Bool} (h : Inv cfg s)
+    (hs : stepLoadLock s a v = some s') : Inv cfg s' := by
+  unfold stepLoadLock at hs
+  split at hs
+  · simp at hs
+  facts h a
+  split at hs <;> (try (simp at hs; done)) <;> simp only [Option.some.injEq] at hs <;> subst hs <;> cases v <;>
+    (frame h a) <;> simp_all [setPc, InCS, Wanting, Typed, PushPc, PopPc, RmPc]
+
+theorem inv_tas {cfg : Cfg} {s s' : St} {a : Actor} {old : Bool} (h : Inv cfg s)
+    (hs : stepTas cfg s a old = some s') : Inv cfg s' := by
+  unfold stepTas at hs
+  split at hs
+  · simp at hs
+  next hg =>
+  have hlk : old = s.lock := by simp_all
+  split at hs <;> (try (simp at hs; done)) <;> simp only [Option.some.injEq] at hs <;> subst hs <;> cases old
+  case h_1.false hpc =>
+    exact inv_acquire h hlk.symm (by simp [hpc]) (by simp [hpc, InCS]) (entry_ok h (by simp [hpc, Wanting]))
+  case h_2.false hpc =>
+    exact inv_acquire h hlk.symm (by simp [hpc]) (by simp [hpc, InCS]) (entry_ok h (by simp [hpc, Wanting]))
+  all_goals (facts h a; (frame h a) <;> simp_all [setPc, InCS, Wanting, Typed, PushPc, PopPc, RmPc])
+
+theorem inv_mlock {cfg : Cfg} {s s' : St} {a : Actor} (h : Inv cfg s)
+    (hs : stepMlock cfg s a = some s') : Inv cfg s' := by
+  unfold stepMlock at hs
+  split at hs
+  · simp at hs
+  next hg =>
+  have hlk : s.lock = false := by simp_all
+  split at hs <;> (try (simp at hs; done)) <;> simp only [Option.some.injEq] at hs <;> subst hs
+  case h_1 hpc =>
+    exact inv_acquire h hlk (by simp [hpc]) (by simp [hpc, InCS]) (entry_ok h (by simp [hpc, Wanting]))
+  case h_2 hpc =>
+    have hw : Wanting (s.pc a) := by simp [hpc, Wanting]
+    have hpl : isPopLike (s.cur a) = true := (h.typed a).2.1 (by simp [hpc, PopPc])
+    exact inv_acquire h hlk (by simp [hpc]) (by simp [hpc, InCS]) (Or.inr (Or.inl ⟨rfl, hpl, h.cntPos a hpl hw⟩))
+
+theorem inv_clear {cfg : Cfg} {s s' : St} {a : Actor} (h : Inv cfg s)
+    (hs : stepClear cfg s a = some s') : Inv cfg s' := by
+  unfold stepClear at hs
+  split at hs
+  · simp at hs
+  next hg =>
+  simp only [Option.some.injEq] at hs; subst hs
+  have hpc : s.pc a = .rel := by simp_all
+  have hown : s.owner = some a := by simp_all
+  have he := h.emptySeen a
+  have hr := h.rmSeen a
+  have hcg := h.cntGot a
+  split
+  next hc =>
+    have hpl : isPopLike (s.cur a) = true := by
+      cases hcur : s.cur a <;> simp_all [isPopWait, isPopLike]
+    refine inv_release h hown (Or.inl hpc) (Or.inr (Or.inr ⟨rfl, ?_⟩)) ?_ ?_ (by simp) (Or.inr hpl)
+    · have := hcg hpl (by simp [hpc])
+      cases hcur : s.cur a <;> simp_all [isPopWait, wants]
+    · intro hpl _; exact he hpl (by simp [hpc])
+    · simp
+  next hc =>
+    refine inv_release h hown (Or.inl hpc) (Or.inl rfl) ?_ ?_ (by simp) (Or.inl rfl)
+    · intro hpl _; exact he hpl (by simp [hpc])
+    · intro hrm _; exact hr hrm (by simp [hpc])
+
+theorem inv_munlock {cfg : Cfg} {s s' : St} {a : Actor} (h : Inv cfg s)
+    (hs : stepMunlock cfg s a = some s') : Inv cfg s' := by
+  unfold stepMunlock at hs
+  split at hs
+  · simp at hs
+  next hg =>
+  simp only [Option.some.injEq] at hs; subst hs
+  have hpc : s.pc a = .rel := by simp_all
+  have hown : s.owner = some a := by simp_all
+  refine inv_release h hown (Or.inl hpc) (Or.inl rfl) ?_ ?_ (by simp) (Or.inl rfl)
+  · intro hpl _; exact h.emptySeen a hpl (by simp [hpc])
+  · intro hrm _; exact h.rmSeen a hrm (by simp [hpc])
+
+theorem inv_condWait {cfg : Cfg} {s s' : St} {a : Actor} (h : Inv cfg s)
+    (hs : stepCondWait cfg s a = some s') : Inv cfg s' := by
+  unfold stepCondWait at hs
+  split at hs
+  · simp at hs
+  next hg =>
+  simp only [Option.some.injEq] at hs; subst hs
+  have hpc : s.pc a = .wWait := by simp_all
+  have hown : s.owner = some a := by simp_all
+  have hpl : isPopLike (s.cur a) = true := (h.typed a).2.1 (by simp [hpc, PopPc])
+  refine inv_release h hown (Or.inr hpc) (Or.inr (Or.inl rfl)) (by simp) (by simp) ?_ (Or.inr hpl)
+  intro hpl _; exact h.cntPos a hpl (by simp [hpc, Wanting])
+
+theorem inv_signal {cfg : Cfg} {s s' : St} {a : Actor} (h : Inv cfg s)
+    (hs : stepSignal s a = some s') : Inv cfg s' := by
+  unfold stepSignal at hs
+  split at hs
+  · simp at hs
+  next hg =>
+  simp only [Option.some.injEq] at hs; subst hs
+  facts h a
+  (frame h a) <;> simp_all [setPc, InCS, Wanting, Typed, PushPc, PopPc, RmPc]
+
+theorem inv_wake {cfg : Cfg} {s s' : St} {a : Actor} (h : Inv cfg s)
+    (hs : stepWake s a = some s') : Inv cfg s' := by
+  unfold stepWake at hs
+  split at hs
+  · simp at hs
+  next hg =>
+  simp only [Option.some.injEq] at hs; subst hs
+  facts h a
+  (frame h a) <;> simp_all [setPc, InCS, Wanting, Typed, PushPc, PopPc, RmPc]
+
 end ArgoVerif.Model.PoolConc
